@@ -15,6 +15,7 @@ type modelCheck struct {
 	nt      func(l map[string]bool) bool
 	assume  []string
 	valid   bool   // ValidSigs
+	deep    int    // percentage of cases that are one long line of constructors (GenDeepChain)
 	risky   string // RunOpts.Risky: how Invokes whose resolution traverses a constructor cycle are executed
 	// tweak may adjust the knobs per case (drawn from the rapid stream)
 	tweak func(t *rapid.T, k *Knobs)
@@ -29,6 +30,15 @@ func (mc modelCheck) register() {
 			k := scale(mc.knobs(), thorough)
 			if mc.tweak != nil {
 				mc.tweak(t, &k)
+			}
+			if mc.deep > 0 && rapid.IntRange(0, 99).Draw(t, "deepchain") < mc.deep {
+				n := 24
+				if thorough {
+					n = 40
+				}
+				k.Names = []string{"a", "b", "c", "d"}
+				k.Types = []string{"T0", "T1", "T2", "T3", "T4", "T5", "S0", "S1"}
+				return GenDeepChain(t, k, n)
 			}
 			return GenCase(t, k)
 		},
@@ -134,6 +144,7 @@ func init() {
 		nt: func(l map[string]bool) bool {
 			return l["deep-hole"] || l["optional-above-hole"] || l["provider-not-visible"]
 		},
+		deep:  5,
 		valid: true,
 	}.register()
 
